@@ -412,8 +412,16 @@ def resize_image_to_macro_block(
 
 
 def _load_images(frames_dir: str) -> list:
+    def frame_number(file_name: str) -> int:
+        digits = "".join(char for char in file_name if char.isdigit())
+        return int(digits) if digits else -1
+
+    # Sorted by frame number: the lexicographic order of "frame_100.png" is
+    # before "frame_11.png".
     frames = [
         os.path.join(frames_dir, frame)
-        for frame in sorted(os.listdir(frames_dir))
+        for frame in sorted(
+            os.listdir(frames_dir), key=lambda name: (frame_number(name), name)
+        )
     ]
     return [imageio.imread(frame) for frame in frames]
